@@ -72,9 +72,12 @@ func scTamper(r *Run) {
 	}
 	switch slot {
 	case 1:
-		if sweep == 0 {
+		switch {
+		case sweep == 0:
 			kind = 1
-		} else {
+		case sweep%2 == 1:
+			kind = 4 // truncation again, this time right behind a full copy of the datagram from another address
+		default:
 			mask = seeded()
 		}
 	case 2:
@@ -91,7 +94,7 @@ func scTamper(r *Run) {
 			mask = 1 << (uint(pos) % 8)
 		}
 	}
-	kindName := []string{"xor", "truncate", "replace", "xor2"}[kind]
+	kindName := []string{"xor", "truncate", "replace", "xor2", "truncate-primed"}[kind]
 	r.SetCfg("alter", fmt.Sprintf("%s %s pos=%d mask=%02x sweep=%d", kindName, m.name, pos, mask, sweep))
 
 	n := NewNet(r)
@@ -203,7 +206,7 @@ func scTamper(r *Run) {
 			applied = fmt.Sprintf("%s of %d bytes: bytes %d and %d xor %02x", m.name, len(d.Data), pos, q, mask)
 			n.Redeliver(c, n.Cfg.Latency)
 			return false
-		case 1:
+		case 1, 4:
 			if pos >= len(d.Data) {
 				return true
 			}
@@ -214,7 +217,18 @@ func scTamper(r *Run) {
 			c.Data = c.Data[:pos]
 			c.Mut = fmt.Sprintf("trunc@%d", pos)
 			applied = fmt.Sprintf("%s of %d bytes truncated to %d", m.name, len(d.Data), pos)
-			n.Redeliver(c, n.Cfg.Latency)
+			if kind == 4 && m.toServer && !m.hidden {
+				// the server has just seen the complete datagram from an address it does not belong to (refused, or
+				// answered to that address): whatever it keeps in its receive buffer is the right bytes.  (Only for
+				// the discoverable client-to-server messages: a client does not look at the source address, and a
+				// hidden request is a complete handshake of its own.)
+				full := d.clone()
+				full.From = Addr(12, 4012)
+				full.Mut = "verbatim copy from another address"
+				n.Redeliver(full, n.Cfg.Latency)
+				applied += " (right behind a full copy from another address)"
+			}
+			n.Redeliver(c, n.Cfg.Latency+time.Microsecond)
 			return false
 		default:
 			src := captured[t]
